@@ -6,7 +6,7 @@
 
   Step-level theorems are for ALL states satisfying `GSys.GInv` (resp. `Synced ∧ CInv`, `SInv`
   where said) and ALL operations, crashes included: the post-state of `crashIn k op` is one of
-  the commit points of `op` (Inv/NpStep.lean).  `op.plain` is the operation a (possibly crashed)
+  the commit points of `op` (Inv/NpStep.lean).  `op.inner` is the operation a (possibly crashed)
   step consists of.
 -/
 import Wormhole.Props.C03
@@ -38,7 +38,7 @@ theorem boundTo_of_getD {s : Sys} (hc : s.ConnInv) {c : Nat} {x : Conn} {a σ : 
     `n`, received on a connection bound to `(a, σ)`. -/
 theorem C07_claim_added {g : GSys} (hI : g.GInv) (op : Op) {a n σ : String}
     (hpost : (g.step op).sys.db.claims a n σ) (hpre : ¬ g.sys.db.claims a n σ) :
-    ∃ c t id cmd x, op.plain = .recv c t id cmd ∧ g.sys.findConn c = some x ∧ x.BoundTo a σ ∧
+    ∃ c t id cmd x, op.inner = .recv c t id cmd ∧ g.sys.findConn c = some x ∧ x.BoundTo a σ ∧
       ((∃ fresh, cmd = .claim (some n) fresh) ∨
        ∃ pick draws fresh, cmd = .allocate pick draws fresh ∧
          findAvailable (g.sys.db.namesOfApp a) pick draws = some n) := by
@@ -72,7 +72,7 @@ theorem C07_claim_removed {g : GSys} (hI : g.GInv) (op : Op) {a n σ : String}
     (hpre : g.sys.db.claims a n σ)
     (hsurv : ∀ np ∈ g.sys.db.nameplates, np.app = a → np.name = n → np ∈ (g.step op).sys.db.nameplates)
     (hpost : ¬ (g.step op).sys.db.claims a n σ) :
-    ∃ c t id nm x, op.plain = .recv c t id (.release nm) ∧ g.sys.findConn c = some x ∧ x.BoundTo a σ ∧
+    ∃ c t id nm x, op.inner = .recv c t id (.release nm) ∧ g.sys.findConn c = some x ∧ x.BoundTo a σ ∧
       releaseTarget x nm = some n := by
   have hrel := hI.npRel op
   have hp := hI.cinv.toPInv
@@ -90,13 +90,13 @@ theorem C07_claim_removed {g : GSys} (hI : g.GInv) (op : Op) {a n σ : String}
     -- its mailbox, (iii) in a non-faulted sweep that deletes its mailbox. -/
 theorem C07_nameplate_deleted {g : GSys} (hI : g.GInv) (op : Op) {np : Nameplate}
     (hnp : np ∈ g.sys.db.nameplates) (hgone : ∀ r ∈ (g.step op).sys.db.nameplates, r.id ≠ np.id) :
-    (∃ c t id nm x σ, op.plain = .recv c t id (.release nm) ∧ g.sys.findConn c = some x ∧
+    (∃ c t id nm x σ, op.inner = .recv c t id (.release nm) ∧ g.sys.findConn c = some x ∧
       x.BoundTo np.app σ ∧ releaseTarget x nm = some np.name ∧
       ∀ r ∈ g.sys.db.npSides, r.npid = np.id → r.side ≠ σ → r.claimed = false) ∨
-    (∃ c t id m mood x, op.plain = .recv c t id (.close m mood) ∧ g.sys.findConn c = some x ∧
+    (∃ c t id m mood x, op.inner = .recv c t id (.close m mood) ∧ g.sys.findConn c = some x ∧
       x.app = some np.app ∧ closeTarget x m = some np.mailbox ∧
       ∀ mb ∈ (g.step op).sys.db.mailboxes, mb.id ≠ np.mailbox) ∨
-    (∃ now, op.plain = .sweep now false ∧ ∀ mb ∈ (g.step op).sys.db.mailboxes, mb.id ≠ np.mailbox) := by
+    (∃ now, op.inner = .sweep now false ∧ ∀ mb ∈ (g.step op).sys.db.mailboxes, mb.id ≠ np.mailbox) := by
   have hrel := hI.npRel op
   have hp := hI.cinv.toPInv
   have hnot : np ∉ (g.step op).sys.db.nameplates := fun h => hgone np h rfl
@@ -114,12 +114,12 @@ theorem C07_nameplate_deleted {g : GSys} (hI : g.GInv) (op : Op) {np : Nameplate
     by nothing else, and by nobody else's release. -/
 theorem C07_claim_ended_only_by {g : GSys} (hI : g.GInv) (op : Op) {a n σ : String}
     (hpre : g.sys.db.claims a n σ) (hpost : ¬ (g.step op).sys.db.claims a n σ) :
-    (∃ c t id nm x, op.plain = .recv c t id (.release nm) ∧ g.sys.findConn c = some x ∧ x.BoundTo a σ ∧
+    (∃ c t id nm x, op.inner = .recv c t id (.release nm) ∧ g.sys.findConn c = some x ∧ x.BoundTo a σ ∧
       releaseTarget x nm = some n) ∨
-    (∃ c t id m mood x np, op.plain = .recv c t id (.close m mood) ∧ g.sys.findConn c = some x ∧
+    (∃ c t id m mood x np, op.inner = .recv c t id (.close m mood) ∧ g.sys.findConn c = some x ∧
       x.app = some a ∧ np ∈ g.sys.db.nameplates ∧ np.app = a ∧ np.name = n ∧
       closeTarget x m = some np.mailbox ∧ ∀ mb ∈ (g.step op).sys.db.mailboxes, mb.id ≠ np.mailbox) ∨
-    (∃ now np, op.plain = .sweep now false ∧ np ∈ g.sys.db.nameplates ∧ np.app = a ∧ np.name = n ∧
+    (∃ now np, op.inner = .sweep now false ∧ np ∈ g.sys.db.nameplates ∧ np.app = a ∧ np.name = n ∧
       ∀ mb ∈ (g.step op).sys.db.mailboxes, mb.id ≠ np.mailbox) := by
   have hp := hI.cinv.toPInv
   obtain ⟨np, hnp, e1, e2, r, hr, e3, e4, e5⟩ := hpre
@@ -147,17 +147,17 @@ theorem C07_claim_ended_only_by {g : GSys} (hI : g.GInv) (op : Op) {a n σ : Str
 /-- **C07_claims_change_only_by_owner**: the two directions together -/
 theorem C07_claims_change_only_by_owner {g : GSys} (hI : g.GInv) (op : Op) (a n σ : String) :
     ((g.step op).sys.db.claims a n σ → ¬ g.sys.db.claims a n σ →
-      ∃ c t id cmd x, op.plain = .recv c t id cmd ∧ g.sys.findConn c = some x ∧ x.BoundTo a σ ∧
+      ∃ c t id cmd x, op.inner = .recv c t id cmd ∧ g.sys.findConn c = some x ∧ x.BoundTo a σ ∧
         ((∃ fresh, cmd = .claim (some n) fresh) ∨
          ∃ pick draws fresh, cmd = .allocate pick draws fresh ∧
            findAvailable (g.sys.db.namesOfApp a) pick draws = some n)) ∧
     (g.sys.db.claims a n σ → ¬ (g.step op).sys.db.claims a n σ →
-      (∃ c t id nm x, op.plain = .recv c t id (.release nm) ∧ g.sys.findConn c = some x ∧ x.BoundTo a σ ∧
+      (∃ c t id nm x, op.inner = .recv c t id (.release nm) ∧ g.sys.findConn c = some x ∧ x.BoundTo a σ ∧
         releaseTarget x nm = some n) ∨
-      (∃ c t id m mood x np, op.plain = .recv c t id (.close m mood) ∧ g.sys.findConn c = some x ∧
+      (∃ c t id m mood x np, op.inner = .recv c t id (.close m mood) ∧ g.sys.findConn c = some x ∧
         x.app = some a ∧ np ∈ g.sys.db.nameplates ∧ np.app = a ∧ np.name = n ∧
         closeTarget x m = some np.mailbox ∧ ∀ mb ∈ (g.step op).sys.db.mailboxes, mb.id ≠ np.mailbox) ∨
-      (∃ now np, op.plain = .sweep now false ∧ np ∈ g.sys.db.nameplates ∧ np.app = a ∧ np.name = n ∧
+      (∃ now np, op.inner = .sweep now false ∧ np ∈ g.sys.db.nameplates ∧ np.app = a ∧ np.name = n ∧
         ∀ mb ∈ (g.step op).sys.db.mailboxes, mb.id ≠ np.mailbox)) :=
   ⟨C07_claim_added hI op, C07_claim_ended_only_by hI op⟩
 
@@ -168,7 +168,7 @@ theorem C07_claims_change_only_by_owner {g : GSys} (hI : g.GInv) (op : Op) (a n 
     (it resolves to another name), not the close of another mailbox, nothing in another app
     (`x.app ≠ some a`), and no claim/allocate/open/add/list/ping/bind at all. -/
 theorem C07_claim_survives_recv {g : GSys} (hI : g.GInv) {op : Op} {c : Nat} {t : Time} {id : Val} {cmd : Cmd}
-    {x : Conn} {a n σ : String} (hop : op.plain = .recv c t id cmd) (hx : g.sys.findConn c = some x)
+    {x : Conn} {a n σ : String} (hop : op.inner = .recv c t id cmd) (hx : g.sys.findConn c = some x)
     (hpre : g.sys.db.claims a n σ)
     (hrel : ∀ nm, cmd = .release nm → x.BoundTo a σ → releaseTarget x nm ≠ some n)
     (hclose : ∀ m mood, cmd = .close m mood → x.app = some a →
@@ -191,8 +191,8 @@ theorem C07_claim_survives_recv {g : GSys} (hI : g.GInv) {op : Op} {c : Nat} {t 
 
 /-- connects, drops, restarts and faulted sweeps end no claim -/
 theorem C07_claim_survives_other {g : GSys} (hI : g.GInv) {op : Op} {a n σ : String}
-    (hop : (∃ c, op.plain = .connect c) ∨ (∃ c, op.plain = .drop c) ∨ (∃ t, op.plain = .restart t) ∨
-      (∃ now, op.plain = .sweep now true))
+    (hop : (∃ c, op.inner = .connect c) ∨ (∃ c, op.inner = .drop c) ∨ (∃ t, op.inner = .restart t) ∨
+      (∃ now, op.inner = .sweep now true))
     (hpre : g.sys.db.claims a n σ) : (g.step op).sys.db.claims a n σ := by
   apply Classical.byContradiction
   intro hpost
